@@ -15,6 +15,7 @@ package main
 import (
 	"fmt"
 	"os"
+	"regexp"
 	"runtime"
 	"sort"
 	"strconv"
@@ -113,6 +114,10 @@ func genFlow(prop string, r *rng, n int, tier string, emit func(string)) {
 		"tree 29 2 N sync 1 1 0 0 100 0 0 0 1 0 300 0 0 N sync 1 1 0 0 100 0 0 0 1 0 0 0 0 ; stream 40 ; opts stop=9 sig=1 gm=4",
 	} {
 		emit(c)
+	}
+	if prop == "C05" || prop == "C01" {
+		// a second executor for the same pipeline (same node ids) in one process: its nodes are new instances and are set up again
+		emit("tree 73 1 N sync 2 1 0 0 80 0 0 20 1 0 0 1 1 N sync 1 1 0 0 100 0 0 0 1 0 0 0 0 N hsync 1 1 0 0 100 0 0 0 1 0 0 0 0 ; stream 20 ; opts stop=- gm=4 again=1")
 	}
 	if prop == "C02" || prop == "C04" {
 		// a non-discarding error handler that is stalled for 1.3 s while its node keeps failing: the node waits, no report is lost
@@ -292,8 +297,23 @@ func nodeCounters(id string) string {
 		g(util.GetCounterVecValue(m.Filtered, id)), g(util.GetCounterVecValue(m.Failures, id)), g(util.GetCounterVecValue(m.DiscardedEvents, id)))
 }
 
+// forcedRunID: set while a case with again=1 runs, so that the prelude executor and the judged one use the same node ids
+var forcedRunID int64
+
+var streamRe = regexp.MustCompile(`; stream \d+ ;`)
+
 func execFlow(input string) string {
 	registerExecTypes()
+	if strings.Contains(input, " again=1") && forcedRunID == 0 {
+		// again=1: an executor for the very same pipeline - same node ids - was built, run on an empty stream and shut down
+		// earlier in this process (an application that rebuilds its executor; a test binary that runs two pipelines)
+		forcedRunID = nextRunID()
+		judged := strings.Replace(input, " again=1", "", 1)
+		_ = execFlow(streamRe.ReplaceAllString(judged, "; stream 0 ;"))
+		out := execFlow(judged)
+		forcedRunID = 0
+		return out
+	}
 	segs := strings.Split(input, ";")
 	hd := strings.Fields(segs[0])
 	if len(hd) < 3 || hd[0] != "tree" {
@@ -357,6 +377,9 @@ func execFlow(input string) string {
 		}
 	}
 	run := nextRunID()
+	if forcedRunID != 0 {
+		run = forcedRunID
+	}
 	ft, ok := buildFlowTree(hd[3:], run, uint32(seed64))
 	if !ok || len(ft.roots) != nroots {
 		return "bad-input"
